@@ -1226,8 +1226,9 @@ def main():
 
     def lib():
         import lib2v
-        text, errs = lib2v.generate(toks("src/lib.rs"), toks("src/macros.rs"))
+        text, api, errs = lib2v.generate(toks("src/lib.rs"), toks("src/macros.rs"))
         errors.extend("Lib.v: " + e for e in errs)
+        files["LibApi.v"] = api
         return text
 
     gen("Lib.v", lib)
